@@ -502,6 +502,40 @@ impl<'a> Model<'a> {
         }
     }
 
+    /// The current instance of a subscription name that was created more than once, when its
+    /// creates and deletes were strictly sequential, all definite, and the last of them is a
+    /// create that returned OK. (Falls back to `unique_sub` for names created once.)
+    pub fn last_sub(&self, name: &str) -> Option<SubInst> {
+        if let Some(u) = self.unique_sub(name) {
+            return Some(u);
+        }
+        let mut ops: Vec<&Call> = Vec::new();
+        for c in self.sub_creates.get(name)?.iter().chain(self.sub_deletes.get(name).map(|v| v.iter()).unwrap_or([].iter())) {
+            ops.push(&self.calls[c]);
+        }
+        ops.sort_by_key(|c| c.inv_seq);
+        for w in ops.windows(2) {
+            if w[0].ret_seq_or_max() > w[1].inv_seq {
+                return None;
+            }
+        }
+        if ops.iter().any(|c| c.code().is_none() || (c.code() != Some(OK) && c.maybe_effective())) {
+            return None;
+        }
+        let last = ops.iter().rev().find(|c| c.code() == Some(OK))?;
+        if ops.last().map(|c| c.id) != Some(last.id) {
+            // the last OK operation must be the last operation at all, unless what follows failed definitely
+            if ops.iter().skip_while(|c| c.id != last.id).skip(1).any(|c| c.code() == Some(OK)) {
+                return None;
+            }
+        }
+        if let Req::CreateSub { sub, topic, ack_deadline, push } = &last.req {
+            Some(SubInst { name: sub.clone(), topic: topic.clone(), ack_deadline_req: *ack_deadline, push: push.clone(), create_call: last.id, established_seq: last.ret_seq.unwrap() })
+        } else {
+            None
+        }
+    }
+
     /// The single creation of a topic name (same rule as `unique_sub`).
     pub fn unique_topic(&self, name: &str) -> Option<&Call> {
         let creates = self.topic_creates.get(name)?;
